@@ -9,8 +9,9 @@ namespace NQ.Hub
 def pcKey : Pc → Option Key
   | .fin => none
   | .cCbRecv k | .cCbLost k | .cOpen k _ | .cRemote k | .cWaitOpen k | .cWaitRemote k => some k
-  | .sCheck k _ | .sCb k _ | .sCall k _ | .sLock k _ | .sAppend k _ => some k
-  | .rLock k _ | .rRead k _ | .rLen k _ | .rLock2 k | .rPop k => some k
+  | .sCheck k _ _ | .sCb k _ _ | .sCall k _ _ | .sLock k _ _ | .sAppend k _ _ => some k
+  | .rLock k _ _ | .rRead k _ _ | .rLen k _ _ | .rLock2 k _ | .rPop k _ => some k
+  | .wCheck k => some k
   | .dLock k | .dLostGet k | .dLostCall k | .dOpenChk k | .dOpenRm k | .dRemChk k | .dRemRm k
   | .dPopRecv k | .dPopLost k => some k
 
@@ -23,7 +24,7 @@ in which `s'` is an explicit record update of `s` and `hpc` names the program co
 macro "step_cases " h:ident s:ident tid:ident hpc:ident : tactic => `(tactic|
   (unfold step at $h:ident
    cases $hpc:ident : (State.threads $s $tid).pc <;> simp only [$hpc:ident] at $h:ident <;>
-   (try split at $h:ident) <;> (try split at $h:ident) <;>
+   (try split at $h:ident) <;> (try split at $h:ident) <;> (try split at $h:ident) <;>
    simp only [Option.some.injEq, reduceCtorEq] at $h:ident <;> subst $h:ident))
 
 /-- `sent = delivered ++ queue` for a channel nobody registers a callback for -/
@@ -55,6 +56,9 @@ namespace NQ.Hub
 @[simp] theorem goto_pc (th : Thread) (pc : Pc) : (goto th pc).pc = pc := rfl
 @[simp] theorem goto_rest (th : Thread) (pc : Pc) : (goto th pc).rest = th.rest := rfl
 @[simp] theorem goto_res (th : Thread) (pc : Pc) : (goto th pc).res = th.res := rfl
+@[simp] theorem gotoR_pc (th : Thread) (pc : Pc) (r : Res) : (gotoR th pc r).pc = pc := rfl
+@[simp] theorem gotoR_rest (th : Thread) (pc : Pc) (r : Res) : (gotoR th pc r).rest = th.rest := rfl
+@[simp] theorem gotoR_res (th : Thread) (pc : Pc) (r : Res) : (gotoR th pc r).res = th.res ++ [r] := rfl
 @[simp] theorem advance_res (tid : Nat) (th : Thread) (r : Res) : (advance tid th r).res = th.res ++ [r] := by
   unfold advance; split <;> rfl
 
@@ -69,22 +73,24 @@ theorem advance_spec (tid : Nat) (th : Thread) (r : Res) :
 theorem entry_cases (tid : Nat) (op : Op) :
     (∃ rn id, op = .connect rn id true ∧ entry tid op = .cCbRecv (tid, rn, id)) ∨
     (∃ rn id, op = .connect rn id false ∧ entry tid op = .cOpen (tid, rn, id) false) ∨
-    (∃ rn id m, op = .send rn id m ∧ entry tid op = .sCheck (tid, rn, id) m) ∨
-    (∃ rn id b, op = .recv rn id b ∧ entry tid op = .rLock (tid, rn, id) b) ∨
+    (∃ rn id m more, op = .send rn id m more ∧ entry tid op = .sCheck (tid, rn, id) m more) ∨
+    (∃ rn id b tag, op = .recv rn id b tag ∧ entry tid op = .rLock (tid, rn, id) b tag) ∨
+    (∃ rn id, op = .wait rn id ∧ entry tid op = .wCheck (tid, rn, id)) ∨
     (∃ rn id, op = .disconnect rn id ∧ entry tid op = .dLock (tid, rn, id)) := by
   cases op with
   | connect rn id cb => cases cb <;> simp [entry]
-  | send rn id m => simp [entry]
-  | recv rn id b => simp [entry]
-  | disconnect rn id => simp [entry]
+  | send rn id m more => exact Or.inr (Or.inr (Or.inl ⟨rn, id, m, more, rfl, rfl⟩))
+  | recv rn id b tag => exact Or.inr (Or.inr (Or.inr (Or.inl ⟨rn, id, b, tag, rfl, rfl⟩)))
+  | disconnect rn id => exact Or.inr (Or.inr (Or.inr (Or.inr (Or.inr ⟨rn, id, rfl, rfl⟩))))
+  | wait rn id => exact Or.inr (Or.inr (Or.inr (Or.inr (Or.inl ⟨rn, id, rfl, rfl⟩))))
 
 theorem NoCbProg_tail {t : Nat} {k : Key} {op : Op} {ops : List Op} (h : NoCbProg t k (op :: ops)) :
     NoCbProg t k ops := fun rn id hm => h rn id (List.mem_cons_of_mem _ hm)
 
 theorem entry_plain {t : Nat} {k : Key} {op : Op} {ops : List Op} (h : NoCbProg t k (op :: ops)) :
-    entry t op ≠ .cCbRecv k ∧ ∀ k0 m, entry t op = .sCall k0 m → rkey k0 ≠ k := by
-  rcases entry_cases t op with ⟨rn, id, rfl, e⟩ | ⟨rn, id, rfl, e⟩ | ⟨rn, id, m, rfl, e⟩ |
-    ⟨rn, id, b, rfl, e⟩ | ⟨rn, id, rfl, e⟩ <;> rw [e] <;> simp
+    entry t op ≠ .cCbRecv k ∧ ∀ k0 m more, entry t op = .sCall k0 m more → rkey k0 ≠ k := by
+  rcases entry_cases t op with ⟨rn, id, rfl, e⟩ | ⟨rn, id, rfl, e⟩ | ⟨rn, id, m, more, rfl, e⟩ |
+    ⟨rn, id, b, tag, rfl, e⟩ | ⟨rn, id, rfl, e⟩ | ⟨rn, id, rfl, e⟩ <;> rw [e] <;> simp
   exact fun hk => h rn id (List.mem_cons_self) hk
 
 end NQ.Hub
@@ -93,7 +99,7 @@ namespace NQ.Hub
 
 /-- program counters at which the thread holds `_lock` -/
 def holding : Pc → Bool
-  | .sAppend _ _ | .rRead _ _ | .rPop _ => true
+  | .sAppend _ _ _ | .rRead _ _ _ | .rPop _ _ => true
   | .dLostGet _ | .dLostCall _ | .dOpenChk _ | .dOpenRm _ | .dRemChk _ | .dRemRm _ | .dPopRecv _ | .dPopLost _ => true
   | _ => false
 
@@ -103,26 +109,27 @@ def OwnPc (t : Nat) (pc : Pc) : Prop := ∀ k, pcKey pc = some k → k.1 = t
 structure BaseInv (s : State) : Prop where
   own : ∀ t, OwnPc t (s.threads t).pc
   lock : ∀ t, holding (s.threads t).pc = true ↔ s.lock = some t
-  pop : ∀ t k, ((s.threads t).pc = .rLock2 k ∨ (s.threads t).pc = .rPop k) → s.msgs k ≠ []
+  pop : ∀ t k tg, ((s.threads t).pc = .rLock2 k tg ∨ (s.threads t).pc = .rPop k tg) → s.msgs k ≠ []
   nocrash : ∀ t k, Res.crash k ∉ (s.threads t).res
   pub1 : ∀ t k, (s.threads t).pc = .cRemote k → s.open_ k = true
   pub2 : ∀ k, s.everOpen k = true → (∃ t, (s.threads t).pc = .cRemote k) ∨ s.remote k = true ∨ s.remRemoved k = true
 
 theorem entry_own (t : Nat) (op : Op) : OwnPc t (entry t op) ∧ holding (entry t op) = false ∧
-    (∀ k, entry t op ≠ .rLock2 k ∧ entry t op ≠ .rPop k ∧ entry t op ≠ .cRemote k) := by
-  rcases entry_cases t op with ⟨rn, id, rfl, e⟩ | ⟨rn, id, rfl, e⟩ | ⟨rn, id, m, rfl, e⟩ |
-    ⟨rn, id, b, rfl, e⟩ | ⟨rn, id, rfl, e⟩ <;> rw [e] <;> simp [OwnPc, pcKey, holding] <;> intro k hk <;> rw [← hk]
+    (∀ k tg, entry t op ≠ .rLock2 k tg ∧ entry t op ≠ .rPop k tg ∧ entry t op ≠ .cRemote k) := by
+  rcases entry_cases t op with ⟨rn, id, rfl, e⟩ | ⟨rn, id, rfl, e⟩ | ⟨rn, id, m, more, rfl, e⟩ |
+    ⟨rn, id, b, tag, rfl, e⟩ | ⟨rn, id, rfl, e⟩ | ⟨rn, id, rfl, e⟩ <;> rw [e] <;>
+    simp [OwnPc, pcKey, holding] <;> intro k hk <;> rw [← hk]
 
 theorem advance_base (t : Nat) (th : Thread) (r : Res) :
     OwnPc t (advance t th r).pc ∧ holding (advance t th r).pc = false ∧
-    (∀ k, (advance t th r).pc ≠ .rLock2 k ∧ (advance t th r).pc ≠ .rPop k ∧ (advance t th r).pc ≠ .cRemote k) := by
+    (∀ k tg, (advance t th r).pc ≠ .rLock2 k tg ∧ (advance t th r).pc ≠ .rPop k tg ∧ (advance t th r).pc ≠ .cRemote k) := by
   rcases advance_spec t th r with ⟨h1, _, _⟩ | ⟨op, ops, _, h1, _⟩
   · rw [h1]; simp [OwnPc, pcKey, holding]
   · rw [h1]; exact entry_own t op
 
 theorem baseInv_init (progs : List (List Op)) : BaseInv (init progs) := by
   have hst : ∀ t, OwnPc t (startThread t (progs.getD t [])).pc ∧ holding (startThread t (progs.getD t [])).pc = false ∧
-      (∀ k, (startThread t (progs.getD t [])).pc ≠ .rLock2 k ∧ (startThread t (progs.getD t [])).pc ≠ .rPop k ∧
+      (∀ k tg, (startThread t (progs.getD t [])).pc ≠ .rLock2 k tg ∧ (startThread t (progs.getD t [])).pc ≠ .rPop k tg ∧
         (startThread t (progs.getD t [])).pc ≠ .cRemote k) ∧ (startThread t (progs.getD t [])).res = [] := by
     intro t
     unfold startThread
@@ -135,13 +142,13 @@ theorem baseInv_init (progs : List (List Op)) : BaseInv (init progs) := by
   · intro t
     show (holding (startThread t (progs.getD t [])).pc = true ↔ (none : Option Nat) = some t)
     rw [(hst t).2.1]; simp
-  · intro t k h; rcases h with h | h
-    · exact absurd h ((hst t).2.2.1 k).1
-    · exact absurd h ((hst t).2.2.1 k).2.1
+  · intro t k tg h; rcases h with h | h
+    · exact absurd h ((hst t).2.2.1 k tg).1
+    · exact absurd h ((hst t).2.2.1 k tg).2.1
   · intro t k
     show Res.crash k ∉ (startThread t (progs.getD t [])).res
     rw [(hst t).2.2.2]; simp
-  · intro t k h; exact absurd h ((hst t).2.2.1 k).2.2
+  · intro t k h; exact absurd h ((hst t).2.2.1 k 0).2.2
   · intro k h; simp [init] at h
 
 
@@ -156,7 +163,10 @@ theorem own_step (s s' : State) (tid : Nat) (own : ∀ t, OwnPc t (s.threads t).
       simp only [threads_setThread, if_true]
       first
         | exact (advance_base t _ _).1
+        | exact hme
         | (rw [hpc] at hme; simpa [OwnPc, pcKey] using hme)
+        | (rw [hpc] at hme; simp only [OwnPc, pcKey, gotoR_pc, goto_pc] at hme ⊢
+           intro k hk; rw [← Option.some.inj hk]; exact hme _ rfl)
     · simp only [threads_setThread, if_neg ht]; exact own t
 
 
@@ -182,30 +192,31 @@ theorem lock_step (s s' : State) (tid : Nat)
         | (simp [holding] at hme; simp_all [holding]; omega)
 
 
-theorem advance_not_pop (t : Nat) (th : Thread) (r : Res) (k : Key) :
-    ¬ ((advance t th r).pc = .rLock2 k ∨ (advance t th r).pc = .rPop k) := by
-  have := (advance_base t th r).2.2 k
+theorem advance_not_pop (t : Nat) (th : Thread) (r : Res) (k : Key) (tg : Nat) :
+    ¬ ((advance t th r).pc = .rLock2 k tg ∨ (advance t th r).pc = .rPop k tg) := by
+  have := (advance_base t th r).2.2 k tg
   intro h; rcases h with h | h
   · exact this.1 h
   · exact this.2.1 h
 
 theorem pop_step (s s' : State) (tid : Nat) (own : ∀ t, OwnPc t (s.threads t).pc)
-    (pop : ∀ t k, ((s.threads t).pc = .rLock2 k ∨ (s.threads t).pc = .rPop k) → s.msgs k ≠ [])
+    (pop : ∀ t k tg, ((s.threads t).pc = .rLock2 k tg ∨ (s.threads t).pc = .rPop k tg) → s.msgs k ≠ [])
     (h : step s tid = some s') :
-    ∀ t k, ((s'.threads t).pc = .rLock2 k ∨ (s'.threads t).pc = .rPop k) → s'.msgs k ≠ [] := by
+    ∀ t k tg, ((s'.threads t).pc = .rLock2 k tg ∨ (s'.threads t).pc = .rPop k tg) → s'.msgs k ≠ [] := by
   have hme := pop tid
   have hown := own tid
   step_cases h s tid hpc
   all_goals
-    intro t k hk
-    have hpt := pop t k
+    intro t k tg hk
+    have hpt := pop t k tg
     have hot := own t
     clear own pop
     by_cases ht : t = tid
     · subst ht
       simp only [threads_setThread, if_true] at hk
       first
-        | exact absurd hk (advance_not_pop _ _ _ _)
+        | exact absurd hk (advance_not_pop _ _ _ _ _)
+        | exact hpt hk
         | (simp_all [upd]; done)
     · simp only [threads_setThread, if_neg ht] at hk
       first
@@ -222,7 +233,7 @@ theorem pop_step (s s' : State) (tid : Nat) (own : ∀ t, OwnPc t (s.threads t).
 
 
 theorem nocrash_step (s s' : State) (tid : Nat)
-    (pop : ∀ t k, ((s.threads t).pc = .rLock2 k ∨ (s.threads t).pc = .rPop k) → s.msgs k ≠ [])
+    (pop : ∀ t k tg, ((s.threads t).pc = .rLock2 k tg ∨ (s.threads t).pc = .rPop k tg) → s.msgs k ≠ [])
     (nc : ∀ t k, Res.crash k ∉ (s.threads t).res)
     (h : step s tid = some s') : ∀ t k, Res.crash k ∉ (s'.threads t).res := by
   have hme := pop tid
@@ -234,11 +245,11 @@ theorem nocrash_step (s s' : State) (tid : Nat)
     clear nc pop
     by_cases ht : t = tid
     · subst ht
-      simp only [threads_setThread, if_true, advance_res, goto_res]
+      simp only [threads_setThread, if_true, advance_res, goto_res, gotoR_res]
       first
         | exact hnt
         | (simp only [List.mem_append, List.mem_singleton, reduceCtorEq, or_false]; exact hnt)
-        | (exfalso; exact hme _ (Or.inr hpc) (by assumption))
+        | (exfalso; exact hme _ _ (Or.inr hpc) (by assumption))
     · simp only [threads_setThread, if_neg ht]; exact hnt
 
 theorem pub1_step (s s' : State) (tid : Nat) (own : ∀ t, OwnPc t (s.threads t).pc)
@@ -255,7 +266,7 @@ theorem pub1_step (s s' : State) (tid : Nat) (own : ∀ t, OwnPc t (s.threads t)
     · subst ht
       simp only [threads_setThread, if_true] at hk
       first
-        | exact absurd hk ((advance_base _ _ _).2.2 k).2.2
+        | exact absurd hk ((advance_base _ _ _).2.2 k 0).2.2
         | (simp_all [upd]; done)
     · simp only [threads_setThread, if_neg ht] at hk
       first
@@ -336,7 +347,7 @@ namespace NQ.Hub
 
 /-- the messages thread results report as received on key `k`, oldest first -/
 def gotSel (k : Key) : Res → Option Msg
-  | .got k' m => if k' = k then some m else none
+  | .got k' m _ => if k' = k then some m else none
   | _ => none
 def gotOf (k : Key) (rs : List Res) : List Msg := rs.filterMap (gotSel k)
 
@@ -347,7 +358,7 @@ theorem gotOf_snoc (k : Key) (rs : List Res) (r : Res) :
   cases gotSel k r <;> rfl
 
 def PlainThread (k : Key) (tid : Nat) (th : Thread) : Prop :=
-  (th.pc ≠ .cCbRecv k ∧ ∀ k0 m, th.pc = .sCall k0 m → rkey k0 ≠ k) ∧ NoCbProg tid k th.rest
+  (th.pc ≠ .cCbRecv k ∧ ∀ k0 m more, th.pc = .sCall k0 m more → rkey k0 ≠ k) ∧ NoCbProg tid k th.rest
 
 /-- Invariant for a channel `k` whose owner never registers a callback. -/
 structure PlainInv (k : Key) (s : State) : Prop where
@@ -382,17 +393,20 @@ theorem plainInv_step (k : Key) (s s' : State) (tid : Nat) (hinv : PlainInv k s)
     refine plainInv_set k s _ tid _ rfl hall ?_ ?_ ?_
   all_goals first
     | exact plain_advance k tid _ _ hme
+    | exact hme
     | exact hc
     | exact hn
-    | (unfold PlainThread at hme ⊢; rw [hpc] at hme; simp_all [goto]; done)
+    | (unfold PlainThread at hme ⊢; rw [hpc] at hme; simp_all [goto, gotoR]; done)
     | (unfold PlainThread at hme; rw [hpc] at hme; simp_all [upd]; done)
     | (unfold PlainThread at hme; rw [hpc] at hme; simp only [upd]; split <;> simp_all; done)
-    | (rename_i kk mm hx
+    | (rename_i kk mm mo hx
        refine ⟨⟨by simp [goto], ?_⟩, by simpa using hme.2⟩
-       intro k0 m hk heq
+       intro k0 m more hk heq
        simp only [goto_pc, Pc.sCall.injEq] at hk
        rw [← hk.1] at heq
        rw [heq, hn] at hx; cases hx)
+    | (have hne := hme.1.2 _ _ _ hpc
+       simp only [upd, if_neg (Ne.symm hne)]; first | exact hc | exact hn)
 
 theorem plainInv_init (k : Key) (progs : List (List Op))
     (hk : ∀ t, NoCbProg t k (progs.getD t [])) : PlainInv k (init progs) := by
@@ -411,34 +425,36 @@ theorem plainInv_init (k : Key) (progs : List (List Op))
 theorem got_step (k : Key) (s s' : State) (tid : Nat) (own : ∀ t, OwnPc t (s.threads t).pc)
     (plain : PlainInv k s) (hg : gotOf k (s.threads k.1).res = s.delivered k)
     (h : step s tid = some s') : gotOf k (s'.threads k.1).res = s'.delivered k := by
-  have hown := own tid
+  have hkey : ∀ kk, pcKey (s.threads tid).pc = some kk → kk.1 = tid := own tid
   have hme := (plain.thr tid).1
   clear own plain
   step_cases h s tid hpc
   all_goals
     simp only [threads_setThread, delivered_setThread]
-    rw [hpc] at hown hme
+    rw [hpc] at hme
+    have h1 := hkey _ (by rw [hpc]; rfl)
     by_cases ht : k.1 = tid
-    · simp only [if_pos ht, goto_res, advance_res, gotOf_snoc, gotSel]
+    · simp only [if_pos ht, goto_res, gotoR_res, advance_res, gotOf_snoc, gotSel]
       subst ht
       first
         | exact hg
         | (simp only [List.append_nil]; exact hg)
-        | (have hne := hme.2 _ _ rfl
+        | (have hne := hme.2 _ _ _ rfl
            simp only [List.append_nil, upd, if_neg (Ne.symm hne)]; exact hg)
-        | (rename_i kk _ hd tl _
-           by_cases hkk : kk = k
-           · subst hkk; simp [upd, hg]
-           · simp [upd, hkk, Ne.symm hkk, hg])
+        | (obtain ⟨kk, hkk⟩ : ∃ kk, pcKey (s.threads k.1).pc = some kk := by rw [hpc]; exact ⟨_, rfl⟩
+           rw [hpc] at hkk
+           simp only [pcKey, Option.some.injEq] at hkk
+           by_cases e : kk = k
+           · subst hkk; subst e; simp [upd, hg]
+           · subst hkk; simp [upd, e, Ne.symm e, hg])
     · simp only [if_neg ht]
       first
         | exact hg
-        | (have hne := hme.2 _ _ rfl
+        | (have hne := hme.2 _ _ _ rfl
            simp only [upd, if_neg (Ne.symm hne)]; exact hg)
-        | (rename_i kk _ hd tl _
-           have hkk : k ≠ kk := by
-             intro e; subst e; simp [OwnPc, pcKey] at hown; exact ht hown
-           simp only [upd, if_neg hkk]; exact hg)
+        | (simp only [upd]; split
+           · rename_i e; exact absurd (by rw [e]; exact h1) ht
+           · exact hg)
 
 end NQ.Hub
 
@@ -455,13 +471,13 @@ def badPc (k : Key) : Pc → Prop
   | .cOpen k' false => k' = k
   | .dLock k' | .dLostGet k' | .dLostCall k' | .dOpenChk k' | .dOpenRm k' | .dRemChk k' | .dRemRm k'
   | .dPopRecv k' | .dPopLost k' => k' = k
-  | .sLock k0 _ | .sAppend k0 _ => rkey k0 = k
+  | .sLock k0 _ _ | .sAppend k0 _ _ => rkey k0 = k
   | _ => False
 
 /-- program counters at which the callback of `k` must already be registered -/
 def needsReg (k : Key) : Pc → Prop
   | .cCbLost k' | .cOpen k' true => k' = k
-  | .sCb k0 _ => rkey k0 = k
+  | .sCb k0 _ _ => rkey k0 = k
   | _ => False
 
 def CbThread (k : Key) (t : Nat) (th : Thread) : Prop := ¬ badPc k th.pc ∧ CbOnlyProg t k th.rest
@@ -479,8 +495,8 @@ theorem CbOnlyProg_tail {t : Nat} {k : Key} {op : Op} {ops : List Op} (h : CbOnl
 
 theorem entry_cb {t : Nat} {k : Key} {op : Op} {ops : List Op} (h : CbOnlyProg t k (op :: ops)) :
     ¬ badPc k (entry t op) ∧ ¬ needsReg k (entry t op) := by
-  rcases entry_cases t op with ⟨rn, id, rfl, e⟩ | ⟨rn, id, rfl, e⟩ | ⟨rn, id, m, rfl, e⟩ |
-    ⟨rn, id, b, rfl, e⟩ | ⟨rn, id, rfl, e⟩ <;> rw [e] <;> simp [badPc, needsReg]
+  rcases entry_cases t op with ⟨rn, id, rfl, e⟩ | ⟨rn, id, rfl, e⟩ | ⟨rn, id, m, more, rfl, e⟩ |
+    ⟨rn, id, b, tag, rfl, e⟩ | ⟨rn, id, rfl, e⟩ | ⟨rn, id, rfl, e⟩ <;> rw [e] <;> simp [badPc, needsReg]
   · exact h.1 rn id List.mem_cons_self
   · exact h.2 rn id List.mem_cons_self
 
@@ -523,8 +539,9 @@ theorem cb_thr_step (k : Key) (s s' : State) (tid : Nat) (hinv : CbInv k s)
       simp only [threads_setThread, if_true]
       first
         | exact (cb_advance k t _ _ hme).1
+        | exact hme
         | (refine ⟨?_, by simpa using hme.2⟩
-           simp only [goto_pc]
+           simp only [goto_pc, gotoR_pc]
            simp_all [badPc, needsReg]; done)
         | (rename_i hx
            refine ⟨?_, by simpa using hme.2⟩
@@ -552,7 +569,8 @@ theorem cb_reg_step (k : Key) (s s' : State) (tid : Nat) (hinv : CbInv k s)
       simp only [threads_setThread, if_true] at hneed
       first
         | exact absurd hneed (cb_advance k t _ _ hme).2
-        | (simp only [goto_pc] at hneed; simp_all [badPc, needsReg, upd]; done)
+        | (rw [hpc] at hneed; exact hreg hneed)
+        | (simp only [goto_pc, gotoR_pc] at hneed; simp_all [badPc, needsReg, upd]; done)
     · simp only [threads_setThread, if_neg ht] at hneed
       first
         | exact hrt hneed
@@ -605,39 +623,39 @@ theorem queue_step (k : Key) (s s' : State) (tid : Nat) (own : ∀ t, OwnPc t (s
     (hq : s.queued k = s.popped k ++ s.msgs k) (hg : gotOf k (s.threads k.1).res = s.popped k)
     (h : step s tid = some s') :
     s'.queued k = s'.popped k ++ s'.msgs k ∧ gotOf k (s'.threads k.1).res = s'.popped k := by
-  have hown := own tid
+  have hkey : ∀ kk, pcKey (s.threads tid).pc = some kk → kk.1 = tid := own tid
   clear own
   step_cases h s tid hpc
   all_goals
     simp only [threads_setThread, queued_setThread, popped_setThread, msgs_setThread]
-    rw [hpc] at hown
+    have h1 := hkey _ (by rw [hpc]; rfl)
+    obtain ⟨kk, hkk⟩ : ∃ kk, pcKey (s.threads tid).pc = some kk := by rw [hpc]; exact ⟨_, rfl⟩
+    rw [hpc] at hkk
+    simp only [pcKey, Option.some.injEq] at hkk
     by_cases ht : k.1 = tid
-    · simp only [if_pos ht, goto_res, advance_res, gotOf_snoc, gotSel]
+    · simp only [if_pos ht, goto_res, gotoR_res, advance_res, gotOf_snoc, gotSel]
       subst ht
       first
         | exact ⟨hq, hg⟩
         | (simp only [List.append_nil]; exact ⟨hq, hg⟩)
-        | (rename_i kk mm
-           refine ⟨?_, by simpa using hg⟩
-           simp only [upd]; split
-           · rename_i e; rw [← e, hq, List.append_assoc]
-           · exact hq)
-        | (rename_i kk _ hd tl hm
-           by_cases hkk : kk = k
-           · subst hkk; simp [upd, hg, hq, hm]
-           · simp [upd, hkk, Ne.symm hkk, hg, hq])
+        | (refine ⟨?_, by simpa using hg⟩          -- sAppend
+           by_cases e : k = rkey kk
+           · subst hkk; subst e; simp [upd, hq]
+           · subst hkk; simp [upd, e, hq])
+        | (by_cases e : kk = k                     -- rPop
+           · subst hkk; subst e; simp_all [upd]
+           · subst hkk; simp [upd, e, Ne.symm e, hg, hq])
     · simp only [if_neg ht]
       first
         | exact ⟨hq, hg⟩
-        | (rename_i kk mm
-           refine ⟨?_, hg⟩
-           simp only [upd]; split
-           · rename_i e; rw [← e, hq, List.append_assoc]
-           · exact hq)
-        | (rename_i kk _ hd tl _
-           have hkk : k ≠ kk := by
-             intro e; subst e; simp [OwnPc, pcKey] at hown; exact ht hown
-           simp only [upd, if_neg hkk]; exact ⟨hq, hg⟩)
+        | (refine ⟨?_, hg⟩
+           by_cases e : k = rkey kk
+           · subst hkk; subst e; simp [upd, hq]
+           · subst hkk; simp [upd, e, hq])
+        | (have hne : k ≠ kk := by
+             intro e; subst e; subst hkk; exact ht h1
+           subst hkk
+           simp only [upd, if_neg hne]; exact ⟨hq, hg⟩)
 
 end NQ.Hub
 
@@ -654,8 +672,9 @@ def LifeOk (t : Nat) (k : Key) : Bool → List Op → Prop
       if (t, rn, id) = k then live = false ∧ LifeOk t k true ops else LifeOk t k live ops
   | live, .disconnect rn id :: ops =>
       if (t, rn, id) = k then LifeOk t k false ops else LifeOk t k live ops
-  | live, .send _ _ _ :: ops => LifeOk t k live ops
-  | live, .recv _ _ _ :: ops => LifeOk t k live ops
+  | live, .send _ _ _ _ :: ops => LifeOk t k live ops
+  | live, .recv _ _ _ _ :: ops => LifeOk t k live ops
+  | live, .wait _ _ :: ops => LifeOk t k live ops
 
 /-- value of `live k` when the operation the owner is executing completes -/
 def liveAfter (k : Key) (live : Bool) : Pc → Bool
@@ -697,8 +716,9 @@ theorem modeInv_init (k : Key) (progs : List (List Op)) (hk : LifeOk k.1 k false
         simp only [LifeOk] at hk
         cases cb <;> simp only [entry, liveAfter, Bool.false_eq_true, if_false, if_true] <;>
           split <;> simp_all
-      | send rn id m => simpa [LifeOk, entry, liveAfter] using hk
-      | recv rn id b => simpa [LifeOk, entry, liveAfter] using hk
+      | send rn id m more => simpa [LifeOk, entry, liveAfter] using hk
+      | recv rn id b tag => simpa [LifeOk, entry, liveAfter] using hk
+      | wait rn id => simpa [LifeOk, entry, liveAfter] using hk
       | disconnect rn id =>
         simp only [LifeOk] at hk
         simp only [entry, liveAfter]
@@ -710,8 +730,9 @@ theorem modeInv_init (k : Key) (progs : List (List Op)) (hk : LifeOk k.1 k false
     · rename_i op ops heq
       cases op with
       | connect rn id cb => cases cb <;> simp [entry, pcFacts]
-      | send rn id m => simp [entry, pcFacts]
-      | recv rn id b => simp [entry, pcFacts]
+      | send rn id m more => simp [entry, pcFacts]
+      | recv rn id b tag => simp [entry, pcFacts]
+      | wait rn id => simp [entry, pcFacts]
       | disconnect rn id => simp [entry, pcFacts]
 
 
@@ -727,8 +748,9 @@ theorem advance_mode (o : Nat) (k : Key) (L recv opn : Bool) (th : Thread) (r : 
       simp only [LifeOk] at hl
       cases cb <;> simp only [entry, liveAfter, pcFacts, Bool.false_eq_true, if_false, if_true] <;>
         split at hl <;> simp_all
-    | send rn id m => simpa [LifeOk, entry, liveAfter, pcFacts] using hl
-    | recv rn id b => simpa [LifeOk, entry, liveAfter, pcFacts] using hl
+    | send rn id m more => simpa [LifeOk, entry, liveAfter, pcFacts] using hl
+    | recv rn id b tag => simpa [LifeOk, entry, liveAfter, pcFacts] using hl
+    | wait rn id => simpa [LifeOk, entry, liveAfter, pcFacts] using hl
     | disconnect rn id =>
       simp only [LifeOk] at hl
       simp only [entry, liveAfter, pcFacts]
@@ -822,5 +844,66 @@ theorem shuffle_step (k : Key) (s s' : State) (tid : Nat)
       | (simp only [upd]; split
          · rename_i e; subst e; exact Shuffle.left _ _ _ _ hs
          · exact hs)
+
+end NQ.Hub
+
+namespace NQ.Hub
+
+/-! ### What a sender's results say is what the channel history says -/
+
+/-- the wires thread results report as sent on (the sender's) key `k`, oldest first -/
+def sentSel (k : Key) : Res → Option Msg
+  | .sent k' m => if k' = k then some m else none
+  | _ => none
+def sentOf (k : Key) (rs : List Res) : List Msg := rs.filterMap (sentSel k)
+
+theorem sentOf_snoc (k : Key) (rs : List Res) (r : Res) :
+    sentOf k (rs ++ [r]) = sentOf k rs ++ (match sentSel k r with | some m => [m] | none => []) := by
+  unfold sentOf; rw [List.filterMap_append]; congr 1
+  simp only [List.filterMap_cons, List.filterMap_nil]
+  cases sentSel k r <;> rfl
+
+theorem rkey_inj {a b : Key} (h : rkey a = rkey b) : a = b := by
+  obtain ⟨a1, a2, a3⟩ := a
+  obtain ⟨b1, b2, b3⟩ := b
+  simp only [rkey, Prod.mk.injEq] at h
+  simp only [Prod.mk.injEq]
+  exact ⟨h.2.1, h.1, h.2.2⟩
+
+/-- for EVERY key and program: the channel towards `rkey k` holds exactly the `.sent k _` results of the
+owner of `k` (each completed hand-over appends exactly one message, to exactly that channel) -/
+theorem sentres_step (k : Key) (s s' : State) (tid : Nat) (own : ∀ t, OwnPc t (s.threads t).pc)
+    (hs : s.sent (rkey k) = sentOf k (s.threads k.1).res) (h : step s tid = some s') :
+    s'.sent (rkey k) = sentOf k (s'.threads k.1).res := by
+  have hkey : ∀ kk, pcKey (s.threads tid).pc = some kk → kk.1 = tid := own tid
+  clear own
+  step_cases h s tid hpc
+  all_goals
+    simp only [threads_setThread, sent_setThread]
+    have h1 := hkey _ (by rw [hpc]; rfl)
+    obtain ⟨kk, hkk⟩ : ∃ kk, pcKey (s.threads tid).pc = some kk := by rw [hpc]; exact ⟨_, rfl⟩
+    rw [hpc] at hkk
+    simp only [pcKey, Option.some.injEq] at hkk
+    by_cases ht : k.1 = tid
+    · simp only [if_pos ht, goto_res, gotoR_res, advance_res, sentOf_snoc, sentSel]
+      subst ht
+      first
+        | exact hs
+        | (simp only [List.append_nil]; exact hs)
+        | (by_cases e : kk = k
+           · subst hkk; subst e; simp [upd, hs]
+           · have e2 : rkey k ≠ rkey kk := fun h2 => e (rkey_inj h2).symm
+             subst hkk
+             simp [upd, e, e2, hs])
+    · simp only [if_neg ht]
+      first
+        | exact hs
+        | (have e2 : rkey k ≠ rkey kk := by
+             intro h2
+             have h3 : k = kk := rkey_inj h2
+             subst hkk
+             exact ht (by rw [h3]; exact h1)
+           subst hkk
+           simp only [upd, if_neg e2]; exact hs)
 
 end NQ.Hub
